@@ -200,6 +200,7 @@ class CacheRun(Scenario):
     def _run(self, ctx, mpar, tmp):
         from mxlpy.parallel import Cache
 
+        mpar.pebble.explore = False  # scheduling is explored in the faulted run only
         baseline = self.job(None)
         n_keys = len(self.keys)
         crash_line = ctx.real("crash_line")  # index of the executed line before which the process dies (-1: never)
@@ -245,12 +246,14 @@ class CacheRun(Scenario):
         CALLS["n"] = 0
         if self.fault == "line":
             sys.settrace(tracer)
+        mpar.pebble.explore = True
         try:
             r1 = self.job(cache)
         except Crash as e:
             crashed = str(e)
         finally:
             sys.settrace(None)
+            mpar.pebble.explore = False
         if crashed is None:
             if self.fault == "line":
                 ctx.assume(crash_line == -1)  # a crash index beyond the last executed line = no crash
